@@ -1,0 +1,16 @@
+//go:build !verif
+// +build !verif
+
+// Package verif contains instrumentation hooks that are only compiled in when
+// the "verif" build tag is set. Without the tag every function in this package
+// is an empty function that the compiler inlines away.
+package verif
+
+const Enabled = false
+
+func HasProc(name string) bool            { return false }
+func Proc(name string, data interface{})  {}
+func Event(ev string, kv ...interface{})  {}
+func Gate(name string, key string) string { return "" }
+func GatePanic(name string, key string)   {}
+func ID(ptr interface{}) string           { return "" }
